@@ -208,8 +208,8 @@ def run(tier):
     if tier != "quick":        # thorough: larger input domain, all fills
         DOM = [("n", [0, 1, 2, 3, 4]), ("m", [1, 2, 3]), ("kout", [2, 3]), ("t", [[1, 2], [-3, 2]]),
                ("u", [[3, 1]]), ("flag", [True, False]), ("p%x", [[1, 2]]), ("q%x", [[5, 2]]),
-               ("p%k", [1, 2]), ("q%k", [2, 0])]
-        FILLS = [1, 2, 3, 4]
+               ("p%k", [1, 2]), ("q%k", [2])]
+        FILLS = [1, 2, 3]          # 720 inputs per statement, ~100k evaluations
     core.setup_psyclone_env()
     out = core.Outcome("C11", tier, "model_checking", matchers=MATCHERS)
     results = [r for part in core.pool_map(_build, items(tier), chunksize=1) for r in part]
